@@ -1,0 +1,28 @@
+//go:build verif
+
+// Contracts for package buf, read by /verif's verifier (fovc).  Comment-only.
+// buf(b) is the ghost content of buffer b.
+
+package buf
+
+//@ mode slices=value strings=smt
+
+//@ func New
+//@   props C14 C18
+//@   modifies bufs
+//@   panics never
+//@   ensures empty: buf(result) == ""
+//@   ensures fresh: result != 0 && result >= old(next) && result < next
+//@   ensures others: bufsframe()
+
+//@ func Write
+//@   props C14 C18
+//@   modifies bufs
+//@   panics never
+//@   ensures appended: buf(b) == old(buf(b)) + s
+//@   ensures others: bufsframe_except(b)
+
+//@ func String
+//@   props C14 C18
+//@   panics never
+//@   returns buf(b)
